@@ -24,10 +24,10 @@ class _StructTime(object):
     tm_zone of the configuration in force."""
     __slots__ = ("tm_isdst", "tm_gmtoff", "tm_zone")
 
-    def __init__(self, isdst, gmtoff):
+    def __init__(self, isdst, gmtoff, name="SIM"):
         self.tm_isdst = isdst
         self.tm_gmtoff = gmtoff
-        self.tm_zone = "SIM"
+        self.tm_zone = name
 
 
 class _BareStructTime(object):
@@ -129,7 +129,31 @@ class TimeFacade(object):
         gmtoff = -alt if (self.isdst == 1 and dl) else -tz
         if not self.with_gmtoff:
             return _BareStructTime(self._served("isdst", self.isdst))
-        return _StructTime(self._served("isdst", self.isdst), gmtoff)
+        return _StructTime(self._served("isdst", self.isdst), gmtoff,
+                           self.zone_name())
+
+    # A zone's abbreviation says nothing about its offset: TZ=UTC-3 is a
+    # zone called 'UTC' three hours east of Greenwich, and there are zones
+    # called 'GMT', 'Z' or nothing at all.
+    ZONE_NAMES = ["UTC", "SIM", "GMT", "XST", "Z", "", "CET", "+0530"]
+
+    def zone_name(self):
+        tz, alt, dl = self.zones[self.cur]
+        pick = (abs(tz) // 60 + 3 * self.cur + (
+            5 if (self.isdst == 1 and dl) else 0))
+        return self.ZONE_NAMES[pick % len(self.ZONE_NAMES)]
+
+    @property
+    def tzname(self):
+        saved = self.isdst
+        try:
+            self.isdst = 0
+            std = self.zone_name()
+            self.isdst = 1
+            dst = self.zone_name()
+        finally:
+            self.isdst = saved
+        return (std, dst)
 
     def __getattr__(self, name):
         # anything else an implementation may want from `time` (strptime,
